@@ -40,7 +40,9 @@ def make_case(cid, workdir, layout, seed, method, mode, threads, no_rejects, pla
 
 
 def input_records(case):
-    recs = th.read_records(case['inp'])
+    # input side only: the generator's BAM as pysam reads it (for a replaced-input history the file that is swapped in,
+    # whether or not the run under test got as far as the swap)
+    recs = th.read_records(case.get('inp_observed', case['inp']))
     for r in recs:
         t = case['truth'].get((r['name'], r['mate']))
         if t is None:
@@ -191,6 +193,7 @@ def main():
             tg.write(c2['inp'], first, random.Random(rng.randrange(1 << 30)), method)
             c2['prerun_argv'] = list(c2['argv'])
             c2['swap_from'] = real
+            c2['inp_observed'] = real
             c2['history'] = 'input_path_reused_with_other_content'
         # (4) one contig with more fragments than the molecule iterator's ejection interval (check_eject_every = 10 000):
         #     molecules are ejected while reading, not only at the end
